@@ -33,6 +33,10 @@ FIXED = [
      "fix: disk_io_counters(nowrap=True) lost or kept wrap history", "alternating perdisk forms; all disks vanish then return"),
     ("C10", ["value_mismatch:after_all_devices_vanished", "total_mismatch:after_all_devices_vanished"],
      "fix: net_io_counters(nowrap=True) kept the history of NICs", "all NICs vanish then return"),
+    ("C10", ["value_mismatch:after_caller_mutated_result", "counter_decreased:after_caller_mutated_result",
+             "total_mismatch:after_caller_mutated_result"],
+     "fix: nowrap history was the very dict handed back by the first call",
+     "caller pops 'lo' from the first net_io_counters(pernic=True) result; the counter wraps; the next call goes backwards"),
     ("C11", ["unix_path_with_space_lost"], "fix: net_connections() returned an empty laddr for UNIX sockets", "UNIX socket bound to a path with a space"),
     ("C11", ["unix_shared_between_processes_holder_lost"], "fix: net_connections() reported only one holder", "UNIX socket inherited through fork()"),
     ("C12", ["cmdline_cr_translated_to_lf", "environ_cr_translated_to_lf"], "fix: cmdline() and environ() turned carriage returns",
